@@ -190,12 +190,16 @@ def gen_cases(tier, seed):
             for nth in range(2 if quick else 5):
                 for rep in range(1 if quick else 3):
                     t = dict({'kind': kind, 'size': rng.choice([5, 20])}, **extra)
+                    # (also with a subscriber whose on_done RAISES: it, too, is called once, however often done is announced)
                     t['subs'] = [{}, {}]
+                    raiser = rng.choice([None, None, 0, 1])
                     cfg = dict(multipart_threshold=16, multipart_chunksize=8, io_chunksize=4, max_request_concurrency=2)
                     sp = {'seed': rng.randrange(1 << 30), 'min_part': 8, 'config': cfg, 'transfers': [t], 'family': 'window',
                           'yield': {'p': rng.choice([0.0, 0.1, 0.3]), 'window': dict(wdw, nth=nth, target=0)}}
+                    if raiser is not None:
+                        sp['plan'] = {'faults': [{'at': f't0/cb:on_done:s{raiser}#0', 'phase': 'before', 'kind': 'exc', 'tag': f'FAULT-ondone-{raiser}'}]}
                     if wdw['name'] == 'submission-error-path':
-                        sp['plan'] = {'faults': [{'at': 't0/cb:on_queued:s1#0', 'phase': 'before', 'kind': 'exc', 'tag': 'FAULT-q'}]}
+                        sp.setdefault('plan', {}).setdefault('faults', []).append({'at': 't0/cb:on_queued:s1#0', 'phase': 'before', 'kind': 'exc', 'tag': 'FAULT-q'})
                     cases.append(sp)
                     # the same window with a slow on_done: the first announcer is held inside a subscriber's on_done (parked
                     # until the process is quiescent) so that a second announce_done overlaps the first one's callbacks
